@@ -300,3 +300,64 @@ func init() {
 		return 0
 	}
 }
+
+func init() {
+	// dbgcrashff <base> <p> <fs>: crash node 0 before write p, restart with bootstrap + fast-sync, FF, print block bookkeeping
+	checks["dbgcrashff"] = func(args []string) int {
+		base, p, fs := args[0], atoi(args[1]), atoi(args[2])
+		dir := filepath.Join(scratchDir(), "dbgcrash")
+		defer os.RemoveAll(scratchDir())
+		sc, _ := crashScenario(base, p, false, dir)
+		x := sched.NewExec(sc, nil)
+		defer x.Close()
+		for _, a := range sc.Seed {
+			if x.C.Nodes[0].Down {
+				break
+			}
+			x.Step(a)
+		}
+		show := func(tag string) {
+			for _, n := range x.C.Nodes {
+				if n == nil || n.Down {
+					continue
+				}
+				h := n.Node.VHashgraph()
+				ab := -1
+				if h.AnchorBlock != nil {
+					ab = *h.AnchorBlock
+				}
+				idx := []string{}
+				for _, cr := range n.App.Commits {
+					idx = append(idx, fmt.Sprintf("%d(rr%d,%dtx)", cr.Body.Index, cr.Body.RoundReceived, len(cr.Body.Transactions)))
+				}
+				lcr := -1
+				if h.LastConsensusRound != nil {
+					lcr = *h.LastConsensusRound
+				}
+				fmt.Printf("%s node %d: state=%s lastBlock=%d anchor=%d lcr=%d pending=%v appBlocks=%v restores=%v\n", tag, n.Idx, n.Node.GetState(), n.Store.LastBlockIndex(), ab, lcr, h.VPendingRounds(), idx, n.App.RestoreAt)
+			}
+		}
+		show("before restart")
+		x.C.Restart(0, true, fs > 0)
+		show("after restart")
+		ff := sched.Action{K: "FF", A: 0}
+		if fs == 2 {
+			ff.Fault = "reqF"
+		}
+		fmt.Println("FF:", x.Step(ff))
+		show("after FF")
+		for i := 0; i < 3; i++ {
+			for a := 0; a < 3; a++ {
+				for b := 0; b < 3; b++ {
+					if a != b {
+						if err := x.Step(sched.Action{K: "G", A: a, B: b}); err != nil {
+							fmt.Printf("G(%d,%d): %v\n", a, b, err)
+						}
+					}
+				}
+			}
+			show(fmt.Sprintf("after cycle %d", i))
+		}
+		return 0
+	}
+}
